@@ -38,7 +38,10 @@ func genRemote() {
 	emit := func(def string, p *pkgFiles, fn string, keep func(lines []string, nz *normalizer) []bool) {
 		fd := p.funcDecl(fn)
 		if fd == nil || fd.Body == nil {
-			fatal("genRemote: function %s not found", fn)
+			// not an error of the extractor: the fact then differs from what the model was written from,
+			// and the obligation that quotes it does not build — the check reports that
+			l.strList(def, []string{"<no function " + fn + " in the tree under test>"})
+			return
 		}
 		nz := newNormalizer(fd)
 		lines := nz.skeleton(fd.Body.List, 0)
@@ -78,6 +81,90 @@ func genRemote() {
 	emit("cacheFilePath", tf, "CacheNode.filePath", nil)
 	emit("checksumFn", tf, "checksum", nil)
 	emit("httpResolveEntrypoint", tf, "HTTPNode.ResolveEntrypoint", nil)
+	// the default-name probe (which failure carries which error; where ctx.Err() is looked at; what is tested of a
+	// response), the client every request of an http node is made with (its redirect policy), the location that is
+	// stored with a cached copy, and the git node (scheme check, the clone under the context)
+	emit("remoteExists", tf, "RemoteExists", nil)
+	emit("httpClient", tf, "HTTPNode.client", nil)
+	emit("httpResolvedLocation", tf, "HTTPNode.resolvedLocation", nil)
+	emit("httpSetResolvedLocation", tf, "HTTPNode.setResolvedLocation", nil)
+	emit("readResolvedLocation", tf, "CacheNode.ReadResolvedLocation", nil)
+	emit("writeResolvedLocation", tf, "CacheNode.WriteResolvedLocation", nil)
+	emit("newGitNode", tf, "NewGitNode", nil)
+	emit("gitReadContext", tf, "GitNode.ReadContext", nil)
+	// every place in package taskfile where an HTTP request is sent (a call of a method Do/Get/Head/Post/PostForm), shown
+	// as the call with locals as placeholders, and every mention of the package-level default client / transport of
+	// net/http (an identifier `http` that resolves to no object of the file, i.e. the package) or of its convenience
+	// functions — which would bypass the node's redirect policy
+	var doers, defaults []string
+	for _, fname := range tf.sortedFiles() {
+		for _, d := range tf.files[fname].Decls {
+			fd, ok := d.(*ast.FuncDecl)
+			if !ok || fd.Body == nil {
+				continue
+			}
+			nz := newNormalizer(fd)
+			var calls, defs []string
+			ast.Inspect(fd.Body, func(n ast.Node) bool {
+				switch x := n.(type) {
+				case *ast.CallExpr:
+					if se, ok := x.Fun.(*ast.SelectorExpr); ok {
+						switch se.Sel.Name {
+						case "Do", "Get", "Head", "Post", "PostForm":
+							if id, ok := se.X.(*ast.Ident); ok && id.Name == "http" && id.Obj == nil {
+								defs = append(defs, nz.src(x.Fun))
+							} else if se.Sel.Name == "Do" {
+								calls = append(calls, nz.src(x))
+							}
+						}
+					}
+				case *ast.SelectorExpr:
+					if id, ok := x.X.(*ast.Ident); ok && id.Name == "http" && id.Obj == nil &&
+						(x.Sel.Name == "DefaultClient" || x.Sel.Name == "DefaultTransport") {
+						defs = append(defs, nz.src(x))
+					}
+				}
+				return true
+			})
+			for _, c := range renumber(calls) {
+				doers = append(doers, funcName(fd)+": "+c)
+			}
+			for _, c := range defs {
+				defaults = append(defaults, funcName(fd)+": "+c)
+			}
+		}
+	}
+	l.strList("httpDoers", wrapLines(doers, 96))
+	l.strList("httpDefaultClientUses", wrapLines(defaults, 96))
+	// every method ReadContext of package taskfile: the name of its context parameter (`_` = the context is dropped)
+	// and every use of it
+	var rc []string
+	for _, fname := range tf.sortedFiles() {
+		for _, d := range tf.files[fname].Decls {
+			fd, ok := d.(*ast.FuncDecl)
+			if !ok || fd.Body == nil || fd.Recv == nil || fd.Name.Name != "ReadContext" {
+				continue
+			}
+			param := "<none>"
+			if ps := fd.Type.Params.List; len(ps) > 0 && len(ps[0].Names) > 0 {
+				param = ps[0].Names[0].Name
+			}
+			if param == "_" || param == "<none>" {
+				rc = append(rc, funcName(fd)+"("+param+"): the context is dropped")
+				continue
+			}
+			nz := newNormalizer(fd)
+			uses := renumber(nz.identUses(fd.Body, param))
+			if len(uses) == 0 {
+				rc = append(rc, funcName(fd)+"("+param+"): the context is not used")
+			}
+			for _, u := range uses {
+				// the name of the parameter itself is irrelevant
+				rc = append(rc, funcName(fd)+": "+remReplaceIdent(u, param, "ctx"))
+			}
+		}
+	}
+	l.strList("readContextUses", wrapLines(rc, 96))
 	emit("readTaskfile", root, "Executor.readTaskfile", nil)
 	emit("prompt", lg, "Logger.Prompt", nil)
 	// only the guards of Validate that concern the remote flags (package-level variables of internal/flags)
@@ -133,9 +220,23 @@ func genRemote() {
 			fatal("genRemote: readRemoteNodeContent no longer assigns the result of <cache>.Read() to a local")
 		}
 		retBytes := "return " + nz.token(bytesObj)
+		// … or of a local function that returns them (`useCache := func() ([]byte, error) { …; return cachedBytes, nil }`)
+		retVia := "\x00"
+		ast.Inspect(nz.fd.Body, func(n ast.Node) bool {
+			as, ok := n.(*ast.AssignStmt)
+			if !ok || len(as.Lhs) != 1 || len(as.Rhs) != 1 {
+				return true
+			}
+			fl, ok := as.Rhs[0].(*ast.FuncLit)
+			id, ok2 := as.Lhs[0].(*ast.Ident)
+			if ok && ok2 && nz.local(id.Obj) && contains(nz.src(fl), retBytes) {
+				retVia = "return " + nz.token(id.Obj) + "()"
+			}
+			return true
+		})
 		m := make([]bool, len(lines))
 		for i, s := range lines {
-			m[i] = mentionsIdent(s, "ctx") || contains(s, "NewCacheNode(") || contains(s, readCall) || contains(s, retBytes)
+			m[i] = mentionsIdent(s, "ctx") || contains(s, "NewCacheNode(") || contains(s, readCall) || contains(s, retBytes) || contains(s, retVia)
 		}
 		return m
 	})
@@ -305,6 +406,27 @@ func renumber(lines []string) []string {
 		})
 	}
 	return out
+}
+
+// remReplaceIdent: every occurrence of `name` as a whole identifier in s becomes `with`
+func remReplaceIdent(s, name, with string) string {
+	if name == with {
+		return s
+	}
+	isId := func(b byte) bool {
+		return b == '_' || (b >= '0' && b <= '9') || (b >= 'a' && b <= 'z') || (b >= 'A' && b <= 'Z')
+	}
+	var sb strings.Builder
+	for i := 0; i < len(s); {
+		if i+len(name) <= len(s) && s[i:i+len(name)] == name && (i == 0 || !isId(s[i-1])) && (i+len(name) == len(s) || !isId(s[i+len(name)])) {
+			sb.WriteString(with)
+			i += len(name)
+			continue
+		}
+		sb.WriteByte(s[i])
+		i++
+	}
+	return sb.String()
 }
 
 // mentionsIdent: `name` occurs in s as a whole identifier
